@@ -258,6 +258,8 @@ def run(ctx):
                 break
     from .gensamplers import check_generated_samplers
     check_generated_samplers(ctx)          # the definitions regenerated from the source (Generated/Samplers.lean) vs the real functions
+    from .genrays import check_generated_rays
+    check_generated_rays(ctx)              # Generated/RayCreate.lean, RayCreateBatch.lean (ray creation, both APIs) vs the real functions
     more_generators(ctx)
 
 
